@@ -4,6 +4,12 @@
 //!   ions pep                                   ->  [k u32…]×6 (a b c x y z, iteration order) | panic
 //!   ionidx [k kind…] min_ion_index bucket [p pep…]  ->  [f (pep_ix u32 mz)…] sorted by (pep_ix, mz bits) | panic
 //!   ionconst tol_micro_da                      ->  u32×4: -(C+O), NH3, (C+O-NH3+N+H), -NH3 as IonSeries uses them
+//!   ionidxb style opt(min_ion_index) opt([k kind…]) opt(bucket_size) [t threads…] [p pep…]
+//!         ->  min_ion_index [k kind…] bucket_size [f (pep_ix u32 mz)…] (t-1)×(1 | 0 [f (pep_ix u32 mz)…]) order_ok  | panic
+//!       order_ok = in every pool: buckets ascending in m/z, each bucket sorted by peptide index, min_value[i] = its bucket's least m/z
+//!       the settings are written as JSON text (style: 0 absent keys, 1 explicit null, 2 pretty-printed / other key
+//!       order), deserialised into sage_cli::input::Input exactly as sage-cli does, Input::build() (-> Builder::
+//!       make_parameters), then Parameters::build_from_peptides inside an explicit rayon pool of each listed size
 //!
 //! kind: 0=a 1=b 2=c 3=x 4=y 5=z.  Peptide values are constructed directly (all fields are public).
 use super::Info;
@@ -15,7 +21,7 @@ use sage_core::mass::{monoisotopic, H2O, VALID_AA};
 use sage_core::peptide::Peptide;
 use std::sync::Arc;
 
-pub const OPS: &[&str] = &["ions", "ionidx", "ionconst"];
+pub const OPS: &[&str] = &["ions", "ionidx", "ionconst", "ionidxb"];
 pub const INFO: Info = Info {
     rule: "ions: synthetic Peptide values (fields set directly): directed cases (PEPTIDE, the all-zero-mass peptide that \
            reads the constants out of IonSeries::new, one modification at every position, terminal modifications, \
@@ -27,7 +33,14 @@ pub const INFO: Info = Info {
            ionidx: 0..6 such peptides, every subset of the six kinds (thorough: all 64 exhaustively x min_ion_index 0..4; \
            quick: random subsets, incl. duplicates and the empty set), min_ion_index 0..n+1 incl. the boundaries n-2, n-1, n, \
            bucket sizes 1,2,3,7,8192. non-trivial = ions: sequence length >= 2 (at least one ion per series); \
-           ionidx: at least one fragment stored and at least one ion filtered out or several kinds; distinct by request line",
+           ionidx: at least one fragment stored and at least one ion filtered out or several kinds; distinct by request line. \
+           ionidxb (JSON text -> sage_cli Input -> Input::build/Builder::make_parameters -> build_from_peptides inside explicit \
+           rayon pools): peptide counts 1..40 (thorough 1..120) and 97/200/257/300 x pool sizes 1,2,3,4,5,7,8,16 in one request \
+           (all residues of count mod pool size / slab size), every peptide with its own fragment fingerprint (distinct first- \
+           and last-residue modification, varying length and sequence) so that an ion filed under another peptide index is visible; \
+           min_ion_index absent / null / 0 / 1 / 2 / 3 / n-2 / n-1 / n / larger, ion_kinds absent / b,y / all six / singletons / \
+           random subsets, bucket_size absent / 0 / 1 / 3 / 5 / 8192 / 10000, three JSON renderings; non-trivial = at least one \
+           fragment stored",
     serial: false,
 };
 
@@ -213,7 +226,175 @@ fn emit_idx(kinds: &[usize], min_idx: usize, bucket: usize, peps: &[Pep], tag: &
         .nontrivial(!panics && stored > 0 && (dropped > 0 || ks.len() > 1)));
 }
 
+
+// ------------------------------------------------------------------------------------------------ ionidxb
+
+/// peptide `i` of a fingerprinted family: length, sequence and two modification values depend on `i`,
+/// so b/a/c ions (contain residue 0) and y/x/z ions (contain the last residue) differ between any two members
+fn fp_pep(i: usize) -> Pep {
+    let len = 6 + (i % 7);
+    let seq: Vec<u8> = (0..len).map(|j| VALID_AA[(i * 7 + j * (1 + i % 5) + j * j) % 20]).collect();
+    let mut mods = vec![0.0f32; len];
+    mods[0] = 0.5 * (i as f32 + 1.0);
+    mods[len - 1] = 0.25 * (i as f32 + 1.0);
+    let nterm = if i % 9 == 4 { Some(42.0106) } else { None };
+    let cterm = if i % 11 == 7 { Some(-0.984) } else { None };
+    simple(&seq, mods, nterm, cterm)
+}
+
+fn req_idxb(style: usize, min_idx: Option<usize>, kinds: &Option<Vec<usize>>, bucket: Option<usize>, threads: &[usize], peps: &[Pep]) -> String {
+    let mut o = Out::new();
+    o.raw("ionidxb").n(style);
+    match min_idx {
+        None => { o.n(0); }
+        Some(m) => { o.n(1).n(m); }
+    }
+    match kinds {
+        None => { o.n(0); }
+        Some(ks) => {
+            o.n(1).n(ks.len());
+            for &k in ks { o.n(k); }
+        }
+    }
+    match bucket {
+        None => { o.n(0); }
+        Some(b) => { o.n(1).n(b); }
+    }
+    o.n(threads.len());
+    for &t in threads { o.n(t); }
+    o.n(peps.len());
+    for p in peps { p.write(&mut o); }
+    o.finish()
+}
+
+fn emit_idxb(style: usize, min_idx: Option<usize>, kinds: &Option<Vec<usize>>, bucket: Option<usize>, threads: &[usize],
+             peps: &[Pep], tag: &'static str, emit: &mut dyn FnMut(Case)) {
+    let nk = kinds.as_ref().map(|k| k.len()).unwrap_or(2);
+    let m = min_idx.unwrap_or(2);
+    let panics = nk > 0 && peps.iter().any(|p| p.seq.is_empty() || p.mods.len() + 1 < p.seq.len());
+    let stored: usize = peps.iter().map(|p| nk * p.seq.len().saturating_sub(1).saturating_sub(m)).sum();
+    emit(Case::new(req_idxb(style, min_idx, kinds, bucket, threads, peps))
+        .tag(tag)
+        .tag_if(min_idx.is_none(), "ionidxb:min-absent")
+        .tag_if(min_idx == Some(0), "ionidxb:min0")
+        .tag_if(min_idx == Some(1), "ionidxb:min1")
+        .tag_if(kinds.is_none(), "ionidxb:kinds-absent")
+        .tag_if(bucket.is_none(), "ionidxb:bucket-absent")
+        .tag_if(threads.len() > 1, "ionidxb:several-pools")
+        .tag_if(threads.iter().any(|&t| t > 1 && peps.len() % t != 0 && peps.len() > t), "ionidxb:count-not-divisible-by-pool")
+        .tag_if(peps.len() >= 90, "ionidxb:hundreds-of-peptides")
+        .tag_if(panics, "ionidxb:panicking-peptide")
+        .nontrivial(!panics && stored > 0));
+}
+
+const KIND_NAMES: [&str; 6] = ["a", "b", "c", "x", "y", "z"];
+
+/// the configuration file text sage-cli would read (only `database` varies)
+fn config_json(style: usize, min_idx: Option<usize>, kinds: &Option<Vec<usize>>, bucket: Option<usize>) -> Option<String> {
+    let mut fields: Vec<(String, String)> = Vec::new();
+    let explicit_null = style % 3 == 1;
+    match min_idx {
+        Some(m) => fields.push(("min_ion_index".into(), m.to_string())),
+        None if explicit_null => fields.push(("min_ion_index".into(), "null".into())),
+        None => {}
+    }
+    match kinds {
+        Some(ks) => {
+            let names: Option<Vec<String>> = ks.iter().map(|&k| KIND_NAMES.get(k).map(|s| format!("\"{}\"", s))).collect();
+            fields.push(("ion_kinds".into(), format!("[{}]", names?.join(","))));
+        }
+        None if explicit_null => fields.push(("ion_kinds".into(), "null".into())),
+        None => {}
+    }
+    match bucket {
+        Some(b) => fields.push(("bucket_size".into(), b.to_string())),
+        None if explicit_null => fields.push(("bucket_size".into(), "null".into())),
+        None => {}
+    }
+    fields.push(("fasta".into(), "\"unused.fasta\"".into()));
+    fields.push(("generate_decoys".into(), "false".into()));
+    let pretty = style % 3 == 2;
+    if pretty {
+        fields.reverse();
+    }
+    let (nl, ind, sp) = if pretty { ("\n", "    ", " ") } else { ("", "", "") };
+    let db = fields.iter().map(|(k, v)| format!("{ind}{ind}\"{k}\":{sp}{v}")).collect::<Vec<_>>().join(&format!(",{nl}"));
+    Some(format!(
+        "{{{nl}{ind}\"database\":{sp}{{{nl}{db}{nl}{ind}}},{nl}{ind}\"precursor_tol\":{sp}{{\"ppm\":{sp}[-10.0,{sp}10.0]}},{nl}{ind}\"fragment_tol\":{sp}{{\"ppm\":{sp}[-10.0,{sp}10.0]}},{nl}{ind}\"mzml_paths\":{sp}[\"unused.mzML\"]{nl}}}"
+    ))
+}
+
+fn gen_idxb(rng: &mut Rng, tier: Tier, emit: &mut dyn FnMut(Case)) {
+    let quick = tier == Tier::Quick;
+    let pools = [1usize, 2, 3, 4, 5, 7, 8, 16];
+    let min_cycle: [Option<usize>; 6] = [Some(0), None, Some(1), Some(2), Some(3), Some(0)];
+    let kind_cycle: [Option<Vec<usize>>; 6] =
+        [None, Some(vec![1, 4]), Some(vec![0, 1, 2, 3, 4, 5]), Some(vec![4]), Some(vec![2, 5]), Some(vec![1])];
+    // directed: the smallest count that is not a multiple of the pool size with a shorter last slab
+    let fam = |n: usize| -> Vec<Pep> { (0..n).map(fp_pep).collect() };
+    emit_idxb(0, Some(0), &Some(vec![1, 4]), None, &[1, 4], &fam(11), "ionidxb:directed", emit);
+    emit_idxb(0, None, &None, None, &[4, 1], &fam(11), "ionidxb:directed", emit);
+    emit_idxb(0, Some(2), &Some(vec![1, 4]), None, &[4], &fam(12), "ionidxb:directed", emit);
+    emit_idxb(0, Some(0), &Some(vec![1, 4]), None, &[1], &[simple(b"PEPTIDEK", vec![0.0; 8], None, None)], "ionidxb:directed", emit);
+    emit_idxb(1, None, &None, None, &[1], &[simple(b"PEPTIDEK", vec![0.0; 8], None, None)], "ionidxb:directed", emit);
+    // pool-size sweep: every peptide count x all pool sizes in one request
+    let maxn = if quick { 40 } else { 120 };
+    for n in 1..=maxn {
+        let c = n % 6;
+        emit_idxb(n % 3, min_cycle[c], &kind_cycle[(n / 2) % 6], *rng.pick(&[None, Some(1), Some(8192)]), &pools, &fam(n), "ionidxb:pool-sweep", emit);
+        if !quick || n % 2 == 1 {
+            emit_idxb(0, Some(0), &Some(vec![1, 4]), None, &pools, &fam(n), "ionidxb:pool-sweep", emit);
+        }
+    }
+    let big: &[usize] = if quick { &[97, 200, 257, 300] } else { &[97, 200, 257, 300, 511, 1000, 1023] };
+    for &n in big {
+        emit_idxb(0, Some(1), &Some(vec![1, 4]), None, &[1, 3, 4, 7, 16], &fam(n), "ionidxb:pool-sweep", emit);
+    }
+    // configuration path: min_ion_index / ion_kinds / bucket_size / JSON rendering
+    let nb = if quick { 300 } else { 6000 };
+    for _ in 0..nb {
+        let np = 1 + rng.below(5);
+        let off = rng.below(50);
+        let mut peps: Vec<Pep> = (0..np).map(|i| fp_pep(off + i)).collect();
+        if rng.chance(1, 6) {
+            let i = rng.below(np);
+            peps[i] = random_pep(rng, 12);
+        }
+        let n = rng.pick(&peps).seq.len();
+        let min_idx = match rng.below(10) {
+            0 | 1 => None,
+            2 | 3 => Some(0),
+            4 => Some(1),
+            5 => Some(2),
+            6 => Some(3),
+            7 => Some((n + rng.below(3)).saturating_sub(2)),
+            8 => Some(n + 5),
+            _ => Some(rng.below(12)),
+        };
+        let kinds = match rng.below(6) {
+            0 | 1 => None,
+            2 => Some(vec![1, 4]),
+            3 => Some(vec![rng.below(6)]),
+            4 => Some(vec![]),
+            _ => {
+                let mask = rng.below(64);
+                let mut k: Vec<usize> = (0..6).filter(|k| (mask >> k) & 1 == 1).collect();
+                rng.shuffle(&mut k);
+                Some(k)
+            }
+        };
+        let bucket = *rng.pick(&[None, None, Some(0), Some(1), Some(3), Some(5), Some(8192), Some(10000)]);
+        let threads: Vec<usize> = match rng.below(3) {
+            0 => vec![1],
+            1 => vec![*rng.pick(&pools)],
+            _ => vec![2, 1, 3],
+        };
+        emit_idxb(rng.below(3), min_idx, &kinds, bucket, &threads, &peps, "ionidxb:config", emit);
+    }
+}
+
 pub fn gen(rng: &mut Rng, tier: Tier, emit: &mut dyn FnMut(Case)) {
+    gen_idxb(&mut rng.fork(), tier, emit);
     let quick = tier == Tier::Quick;
     // ---------------------------------------------------------------- ions: directed
     emit(Case::new("ionconst 100".to_string()).tag("ionconst"));
@@ -404,6 +585,72 @@ pub fn exec(op: &str, t: &mut Toks) -> Option<String> {
             for (i, m) in frags {
                 o.n(i).n(m);
             }
+            Some(o.finish())
+        }
+        "ionidxb" => {
+            let style = t.usize()?;
+            let min_idx = t.opt(|t| t.usize())?;
+            let kinds = t.opt(|t| t.list(|t| t.usize()))?;
+            let bucket = t.opt(|t| t.usize())?;
+            let threads = t.list(|t| t.usize())?;
+            let peps = t.list(Pep::read)?;
+            if !t.done() || threads.is_empty() || threads.iter().any(|&n| n == 0 || n > 64) {
+                return None;
+            }
+            let text = config_json(style, min_idx, &kinds, bucket)?;
+            // exactly what sage-cli does with the configuration file's text
+            let input: sage_cli::input::Input = serde_json::from_str(&text).ok()?;
+            let search = input.build().ok()?;
+            let params: Parameters = search.database;
+            let peptides: Vec<Peptide> = peps.iter().map(|p| p.peptide()).collect();
+            let mut o = Out::new();
+            o.n(params.min_ion_index).n(params.ion_kinds.len());
+            for k in &params.ion_kinds {
+                o.n(KINDS.iter().position(|x| x == k)?);
+            }
+            o.n(params.bucket_size);
+            let mut first: Option<Vec<(u32, u32)>> = None;
+            let mut order_ok = true;
+            for &nt in &threads {
+                let pool = rayon::ThreadPoolBuilder::new().num_threads(nt).build().ok()?;
+                let (prm, pp) = (params.clone(), peptides.clone());
+                let db = pool.install(move || prm.build_from_peptides(pp));
+                // layout the lookup relies on (the multiset below is what C09 is about; this is one bit per request)
+                let chunks: Vec<&[sage_core::database::Theoretical]> = db.fragments.chunks(db.bucket_size.max(1)).collect();
+                order_ok &= db.min_value.len() == chunks.len();
+                for (ci, ch) in chunks.iter().enumerate() {
+                    let lo = ch.iter().map(|f| f.fragment_mz).fold(f32::INFINITY, f32::min);
+                    let hi = ch.iter().map(|f| f.fragment_mz).fold(f32::NEG_INFINITY, f32::max);
+                    order_ok &= db.min_value.get(ci).map(|m| m.to_bits() == lo.to_bits() || *m == lo).unwrap_or(false);
+                    order_ok &= ch.windows(2).all(|w| w[0].peptide_index <= w[1].peptide_index);
+                    if let Some(next) = chunks.get(ci + 1) {
+                        let nlo = next.iter().map(|f| f.fragment_mz).fold(f32::INFINITY, f32::min);
+                        order_ok &= hi <= nlo;
+                    }
+                }
+                let mut frags: Vec<(u32, u32)> = db.fragments.iter().map(|f| (f.peptide_index.0, f.fragment_mz.to_bits())).collect();
+                frags.sort();
+                let write = |o: &mut Out, fr: &Vec<(u32, u32)>| {
+                    o.n(fr.len());
+                    for (i, m) in fr {
+                        o.n(*i).n(*m);
+                    }
+                };
+                match &first {
+                    None => {
+                        write(&mut o, &frags);
+                        first = Some(frags);
+                    }
+                    Some(f) if *f == frags => {
+                        o.n(1);
+                    }
+                    Some(_) => {
+                        o.n(0);
+                        write(&mut o, &frags);
+                    }
+                }
+            }
+            o.b(order_ok);
             Some(o.finish())
         }
         _ => None,
